@@ -25,6 +25,18 @@ func init() {
 		{Name: "continuation-bit-always-set", Rule: "R15.3", Where: "encoder", Edits: []Edit{{"wiretypes.go", "\t\tif x > 0 {\n\t\t\tencodedByte = encodedByte | 128\n\t\t}", "\t\tencodedByte = encodedByte | 128"}}},
 		{Name: "continuation-test-on-emitted-byte", Rule: "R15.3", Where: "encoder", Edits: []Edit{{"wiretypes.go", "\t\tif x > 0 {\n\t\t\tencodedByte = encodedByte | 128\n\t\t}", "\t\tif encodedByte > 0 {\n\t\t\tencodedByte = encodedByte | 128\n\t\t}"}}},
 		{Name: "decoder-continuation-mask-64", Rule: "R15.1", Where: "(*vbint).UnmarshalBinary", Edits: []Edit{{"wiretypes.go", "\t\tif encodedByte&128 == 0 {\n\t\t\t*v = vbint(value)", "\t\tif encodedByte&64 == 0 {\n\t\t\t*v = vbint(value)"}}},
+		{Name: "for-clause-loop-array-buffer-in-loop-return", Silent: true, Edits: []Edit{{"wiretypes.go", "func (v *vbint) ReadFrom(r io.Reader) (int64, error) {\n\tvar multiplier uint = 1\n\tvar value uint\n\tdata := make([]byte, 1)\n\tvar i int64\n\tfor {\n\t\tif _, err := io.ReadFull(r, data); err != nil {\n\t\t\treturn i, err\n\t\t}\n\t\ti++\n\t\tencodedByte := data[0]\n\t\tvalue += uint(encodedByte) & uint(127) * multiplier\n\t\tif multiplier > 128*128*128 {\n\t\t\treturn i, unmarshalErr(v, \"\", \"size exceeded\")\n\t\t}\n\t\tif encodedByte&128 == 0 {\n\t\t\tbreak\n\t\t}\n\t\tmultiplier = multiplier * 128\n\t}\n\t*v = vbint(value)\n\treturn i, nil\n}\n\n", "func (v *vbint) ReadFrom(r io.Reader) (n int64, err error) {\n\tvar value uint\n\tvar data [1]byte\n\tfor multiplier := uint(1); ; multiplier *= 128 {\n\t\tif _, err = io.ReadFull(r, data[:]); err != nil {\n\t\t\treturn n, err\n\t\t}\n\t\tn++\n\t\tencodedByte := data[0]\n\t\tvalue += uint(encodedByte&127) * multiplier\n\t\tif multiplier > 128*128*128 {\n\t\t\treturn n, unmarshalErr(v, \"\", \"size exceeded\")\n\t\t}\n\t\tif encodedByte&128 == 0 {\n\t\t\t*v = vbint(value)\n\t\t\treturn n, nil\n\t\t}\n\t}\n}\n\n"}}},
+		{Name: "for-clause-loop-mask-63-inside-the-conversion", Rule: "R15.1", Where: "(*vbint).ReadFrom", Edits: []Edit{{"wiretypes.go", "func (v *vbint) ReadFrom(r io.Reader) (int64, error) {\n\tvar multiplier uint = 1\n\tvar value uint\n\tdata := make([]byte, 1)\n\tvar i int64\n\tfor {\n\t\tif _, err := io.ReadFull(r, data); err != nil {\n\t\t\treturn i, err\n\t\t}\n\t\ti++\n\t\tencodedByte := data[0]\n\t\tvalue += uint(encodedByte) & uint(127) * multiplier\n\t\tif multiplier > 128*128*128 {\n\t\t\treturn i, unmarshalErr(v, \"\", \"size exceeded\")\n\t\t}\n\t\tif encodedByte&128 == 0 {\n\t\t\tbreak\n\t\t}\n\t\tmultiplier = multiplier * 128\n\t}\n\t*v = vbint(value)\n\treturn i, nil\n}\n\n", "func (v *vbint) ReadFrom(r io.Reader) (n int64, err error) {\n\tvar value uint\n\tvar data [1]byte\n\tfor multiplier := uint(1); ; multiplier *= 128 {\n\t\tif _, err = io.ReadFull(r, data[:]); err != nil {\n\t\t\treturn n, err\n\t\t}\n\t\tn++\n\t\tencodedByte := data[0]\n\t\tvalue += uint(encodedByte&63) * multiplier\n\t\tif multiplier > 128*128*128 {\n\t\t\treturn n, unmarshalErr(v, \"\", \"size exceeded\")\n\t\t}\n\t\tif encodedByte&128 == 0 {\n\t\t\t*v = vbint(value)\n\t\t\treturn n, nil\n\t\t}\n\t}\n}\n\n"}}},
+		{Name: "for-clause-loop-success-before-the-size-guard", Rule: "R9.3", Where: "(*vbint).ReadFrom#exits", Edits: []Edit{{"wiretypes.go", "func (v *vbint) ReadFrom(r io.Reader) (int64, error) {\n\tvar multiplier uint = 1\n\tvar value uint\n\tdata := make([]byte, 1)\n\tvar i int64\n\tfor {\n\t\tif _, err := io.ReadFull(r, data); err != nil {\n\t\t\treturn i, err\n\t\t}\n\t\ti++\n\t\tencodedByte := data[0]\n\t\tvalue += uint(encodedByte) & uint(127) * multiplier\n\t\tif multiplier > 128*128*128 {\n\t\t\treturn i, unmarshalErr(v, \"\", \"size exceeded\")\n\t\t}\n\t\tif encodedByte&128 == 0 {\n\t\t\tbreak\n\t\t}\n\t\tmultiplier = multiplier * 128\n\t}\n\t*v = vbint(value)\n\treturn i, nil\n}\n\n", "func (v *vbint) ReadFrom(r io.Reader) (n int64, err error) {\n\tvar value uint\n\tvar data [1]byte\n\tfor multiplier := uint(1); ; multiplier *= 128 {\n\t\tif _, err = io.ReadFull(r, data[:]); err != nil {\n\t\t\treturn n, err\n\t\t}\n\t\tn++\n\t\tencodedByte := data[0]\n\t\tvalue += uint(encodedByte&127) * multiplier\n\t\tif encodedByte&128 == 0 {\n\t\t\t*v = vbint(value)\n\t\t\treturn n, nil\n\t\t}\n\t\tif multiplier > 128*128*128 {\n\t\t\treturn n, unmarshalErr(v, \"\", \"size exceeded\")\n\t\t}\n\t}\n}\n\n"}}},
+		{Name: "shift-loop-encoder-own-width", Silent: true, Edits: []Edit{{"wiretypes.go", "func (v vbint) fill(data []byte, i int) int {\n\tx := v\n\tn := i\n\tfor {\n\t\tencodedByte := byte(x % 128)\n\t\tx = x / 128\n\t\tif x > 0 {\n\t\t\tencodedByte = encodedByte | 128\n\t\t}\n\t\tif i < len(data) {\n\t\t\tdata[i] = encodedByte\n\t\t}\n\t\ti++\n\t\tif x == 0 {\n\t\t\tbreak\n\t\t}\n\t}\n\treturn i - n\n}\n\nfunc (v vbint) width() int {\n\treturn v.fill(_LEN, 0)\n}\n\nfunc (v *vbint) ReadFrom(r io.Reader) (int64, error) {\n\tvar multiplier uint = 1\n\tvar value uint\n\tdata := make([]byte, 1)\n\tvar i int64\n\tfor {\n\t\tif _, err := io.ReadFull(r, data); err != nil {\n\t\t\treturn i, err\n\t\t}\n\t\ti++\n\t\tencodedByte := data[0]\n\t\tvalue += uint(encodedByte) & uint(127) * multiplier\n\t\tif multiplier > 128*128*128 {\n\t\t\treturn i, unmarshalErr(v, \"\", \"size exceeded\")\n\t\t}\n\t\tif encodedByte&128 == 0 {\n\t\t\tbreak\n\t\t}\n\t\tmultiplier = multiplier * 128\n\t}\n\t*v = vbint(value)\n\treturn i, nil\n}\n\n// UnmarshalBinary data, returns nil or *Malformed error\nfunc (v *vbint) UnmarshalBinary(data []byte) error {\n\tif len(data) == 0 {\n\t\treturn unmarshalErr(v, \"\", \"missing data\")\n\t}\n\tvar multiplier uint = 1\n\tvar value uint\n\tfor _, encodedByte := range data {\n\t\tvalue += uint(encodedByte) & uint(127) * multiplier\n\t\tif multiplier > 128*128*128 {\n\t\t\treturn unmarshalErr(v, \"\", \"size exceeded\")\n\t\t}\n\t\tif encodedByte&128 == 0 {\n\t\t\t*v = vbint(value)\n\t\t\treturn nil\n\t\t}\n\t\tmultiplier = multiplier * 128\n\t}\n\treturn unmarshalErr(v, \"\", \"missing data\")\n}\n\n", "func (v vbint) fill(data []byte, i int) int {\n\tn := i\n\tx := v\n\t// all but the last group have the continuation bit set\n\tfor ; x >= 128; x >>= 7 {\n\t\ti += putByte(data, i, byte(x&127)|128)\n\t}\n\ti += putByte(data, i, byte(x))\n\treturn i - n\n}\n\n// putByte sets data[i] if there is room for it and returns 1, ie. the\n// width of a byte.\nfunc putByte(data []byte, i int, b byte) int {\n\tif i < len(data) {\n\t\tdata[i] = b\n\t}\n\treturn 1\n}\n\n// width returns the number of 7-bit groups needed to encode v.\nfunc (v vbint) width() int {\n\tn := 1\n\tfor x := v; x >= 128; x >>= 7 {\n\t\tn++\n\t}\n\treturn n\n}\n\nfunc (v *vbint) ReadFrom(r io.Reader) (int64, error) {\n\tvar multiplier uint = 1\n\tvar value uint\n\tdata := make([]byte, 1)\n\tvar i int64\n\tfor {\n\t\tif _, err := io.ReadFull(r, data); err != nil {\n\t\t\treturn i, err\n\t\t}\n\t\ti++\n\t\tencodedByte := data[0]\n\t\tvalue += uint(encodedByte) & uint(127) * multiplier\n\t\tif multiplier > 128*128*128 {\n\t\t\treturn i, unmarshalErr(v, \"\", \"size exceeded\")\n\t\t}\n\t\tif encodedByte&128 == 0 {\n\t\t\tbreak\n\t\t}\n\t\tmultiplier = multiplier * 128\n\t}\n\t*v = vbint(value)\n\treturn i, nil\n}\n\n// UnmarshalBinary data, returns nil or *Malformed error\nfunc (v *vbint) UnmarshalBinary(data []byte) error {\n\tif len(data) == 0 {\n\t\treturn unmarshalErr(v, \"\", \"missing data\")\n\t}\n\tvar multiplier uint = 1\n\tvar value uint\n\tfor _, encodedByte := range data {\n\t\tvalue += uint(encodedByte) & uint(127) * multiplier\n\t\tif multiplier > 128*128*128 {\n\t\t\treturn unmarshalErr(v, \"\", \"size exceeded\")\n\t\t}\n\t\tif encodedByte&128 == 0 {\n\t\t\t*v = vbint(value)\n\t\t\treturn nil\n\t\t}\n\t\tmultiplier = multiplier * 128\n\t}\n\treturn unmarshalErr(v, \"\", \"missing data\")\n}\n\n"}}},
+		{Name: "shift-loop-encoder-threshold-127", Rule: "R15.6", Where: "(vbint).fill", Edits: []Edit{{"wiretypes.go", "func (v vbint) fill(data []byte, i int) int {\n\tx := v\n\tn := i\n\tfor {\n\t\tencodedByte := byte(x % 128)\n\t\tx = x / 128\n\t\tif x > 0 {\n\t\t\tencodedByte = encodedByte | 128\n\t\t}\n\t\tif i < len(data) {\n\t\t\tdata[i] = encodedByte\n\t\t}\n\t\ti++\n\t\tif x == 0 {\n\t\t\tbreak\n\t\t}\n\t}\n\treturn i - n\n}\n\nfunc (v vbint) width() int {\n\treturn v.fill(_LEN, 0)\n}\n\nfunc (v *vbint) ReadFrom(r io.Reader) (int64, error) {\n\tvar multiplier uint = 1\n\tvar value uint\n\tdata := make([]byte, 1)\n\tvar i int64\n\tfor {\n\t\tif _, err := io.ReadFull(r, data); err != nil {\n\t\t\treturn i, err\n\t\t}\n\t\ti++\n\t\tencodedByte := data[0]\n\t\tvalue += uint(encodedByte) & uint(127) * multiplier\n\t\tif multiplier > 128*128*128 {\n\t\t\treturn i, unmarshalErr(v, \"\", \"size exceeded\")\n\t\t}\n\t\tif encodedByte&128 == 0 {\n\t\t\tbreak\n\t\t}\n\t\tmultiplier = multiplier * 128\n\t}\n\t*v = vbint(value)\n\treturn i, nil\n}\n\n// UnmarshalBinary data, returns nil or *Malformed error\nfunc (v *vbint) UnmarshalBinary(data []byte) error {\n\tif len(data) == 0 {\n\t\treturn unmarshalErr(v, \"\", \"missing data\")\n\t}\n\tvar multiplier uint = 1\n\tvar value uint\n\tfor _, encodedByte := range data {\n\t\tvalue += uint(encodedByte) & uint(127) * multiplier\n\t\tif multiplier > 128*128*128 {\n\t\t\treturn unmarshalErr(v, \"\", \"size exceeded\")\n\t\t}\n\t\tif encodedByte&128 == 0 {\n\t\t\t*v = vbint(value)\n\t\t\treturn nil\n\t\t}\n\t\tmultiplier = multiplier * 128\n\t}\n\treturn unmarshalErr(v, \"\", \"missing data\")\n}\n\n", "func (v vbint) fill(data []byte, i int) int {\n\tn := i\n\tx := v\n\t// all but the last group have the continuation bit set\n\tfor ; x >= 127; x >>= 7 {\n\t\ti += putByte(data, i, byte(x&127)|128)\n\t}\n\ti += putByte(data, i, byte(x))\n\treturn i - n\n}\n\n// putByte sets data[i] if there is room for it and returns 1, ie. the\n// width of a byte.\nfunc putByte(data []byte, i int, b byte) int {\n\tif i < len(data) {\n\t\tdata[i] = b\n\t}\n\treturn 1\n}\n\n// width returns the number of 7-bit groups needed to encode v.\nfunc (v vbint) width() int {\n\tn := 1\n\tfor x := v; x >= 128; x >>= 7 {\n\t\tn++\n\t}\n\treturn n\n}\n\nfunc (v *vbint) ReadFrom(r io.Reader) (int64, error) {\n\tvar multiplier uint = 1\n\tvar value uint\n\tdata := make([]byte, 1)\n\tvar i int64\n\tfor {\n\t\tif _, err := io.ReadFull(r, data); err != nil {\n\t\t\treturn i, err\n\t\t}\n\t\ti++\n\t\tencodedByte := data[0]\n\t\tvalue += uint(encodedByte) & uint(127) * multiplier\n\t\tif multiplier > 128*128*128 {\n\t\t\treturn i, unmarshalErr(v, \"\", \"size exceeded\")\n\t\t}\n\t\tif encodedByte&128 == 0 {\n\t\t\tbreak\n\t\t}\n\t\tmultiplier = multiplier * 128\n\t}\n\t*v = vbint(value)\n\treturn i, nil\n}\n\n// UnmarshalBinary data, returns nil or *Malformed error\nfunc (v *vbint) UnmarshalBinary(data []byte) error {\n\tif len(data) == 0 {\n\t\treturn unmarshalErr(v, \"\", \"missing data\")\n\t}\n\tvar multiplier uint = 1\n\tvar value uint\n\tfor _, encodedByte := range data {\n\t\tvalue += uint(encodedByte) & uint(127) * multiplier\n\t\tif multiplier > 128*128*128 {\n\t\t\treturn unmarshalErr(v, \"\", \"size exceeded\")\n\t\t}\n\t\tif encodedByte&128 == 0 {\n\t\t\t*v = vbint(value)\n\t\t\treturn nil\n\t\t}\n\t\tmultiplier = multiplier * 128\n\t}\n\treturn unmarshalErr(v, \"\", \"missing data\")\n}\n\n"}}},
+		{Name: "shift-loop-encoder-shifts-by-8", Rule: "R15.6", Where: "(vbint).fill", Edits: []Edit{{"wiretypes.go", "func (v vbint) fill(data []byte, i int) int {\n\tx := v\n\tn := i\n\tfor {\n\t\tencodedByte := byte(x % 128)\n\t\tx = x / 128\n\t\tif x > 0 {\n\t\t\tencodedByte = encodedByte | 128\n\t\t}\n\t\tif i < len(data) {\n\t\t\tdata[i] = encodedByte\n\t\t}\n\t\ti++\n\t\tif x == 0 {\n\t\t\tbreak\n\t\t}\n\t}\n\treturn i - n\n}\n\nfunc (v vbint) width() int {\n\treturn v.fill(_LEN, 0)\n}\n\nfunc (v *vbint) ReadFrom(r io.Reader) (int64, error) {\n\tvar multiplier uint = 1\n\tvar value uint\n\tdata := make([]byte, 1)\n\tvar i int64\n\tfor {\n\t\tif _, err := io.ReadFull(r, data); err != nil {\n\t\t\treturn i, err\n\t\t}\n\t\ti++\n\t\tencodedByte := data[0]\n\t\tvalue += uint(encodedByte) & uint(127) * multiplier\n\t\tif multiplier > 128*128*128 {\n\t\t\treturn i, unmarshalErr(v, \"\", \"size exceeded\")\n\t\t}\n\t\tif encodedByte&128 == 0 {\n\t\t\tbreak\n\t\t}\n\t\tmultiplier = multiplier * 128\n\t}\n\t*v = vbint(value)\n\treturn i, nil\n}\n\n// UnmarshalBinary data, returns nil or *Malformed error\nfunc (v *vbint) UnmarshalBinary(data []byte) error {\n\tif len(data) == 0 {\n\t\treturn unmarshalErr(v, \"\", \"missing data\")\n\t}\n\tvar multiplier uint = 1\n\tvar value uint\n\tfor _, encodedByte := range data {\n\t\tvalue += uint(encodedByte) & uint(127) * multiplier\n\t\tif multiplier > 128*128*128 {\n\t\t\treturn unmarshalErr(v, \"\", \"size exceeded\")\n\t\t}\n\t\tif encodedByte&128 == 0 {\n\t\t\t*v = vbint(value)\n\t\t\treturn nil\n\t\t}\n\t\tmultiplier = multiplier * 128\n\t}\n\treturn unmarshalErr(v, \"\", \"missing data\")\n}\n\n", "func (v vbint) fill(data []byte, i int) int {\n\tn := i\n\tx := v\n\t// all but the last group have the continuation bit set\n\tfor ; x >= 128; x >>= 8 {\n\t\ti += putByte(data, i, byte(x&127)|128)\n\t}\n\ti += putByte(data, i, byte(x))\n\treturn i - n\n}\n\n// putByte sets data[i] if there is room for it and returns 1, ie. the\n// width of a byte.\nfunc putByte(data []byte, i int, b byte) int {\n\tif i < len(data) {\n\t\tdata[i] = b\n\t}\n\treturn 1\n}\n\n// width returns the number of 7-bit groups needed to encode v.\nfunc (v vbint) width() int {\n\tn := 1\n\tfor x := v; x >= 128; x >>= 7 {\n\t\tn++\n\t}\n\treturn n\n}\n\nfunc (v *vbint) ReadFrom(r io.Reader) (int64, error) {\n\tvar multiplier uint = 1\n\tvar value uint\n\tdata := make([]byte, 1)\n\tvar i int64\n\tfor {\n\t\tif _, err := io.ReadFull(r, data); err != nil {\n\t\t\treturn i, err\n\t\t}\n\t\ti++\n\t\tencodedByte := data[0]\n\t\tvalue += uint(encodedByte) & uint(127) * multiplier\n\t\tif multiplier > 128*128*128 {\n\t\t\treturn i, unmarshalErr(v, \"\", \"size exceeded\")\n\t\t}\n\t\tif encodedByte&128 == 0 {\n\t\t\tbreak\n\t\t}\n\t\tmultiplier = multiplier * 128\n\t}\n\t*v = vbint(value)\n\treturn i, nil\n}\n\n// UnmarshalBinary data, returns nil or *Malformed error\nfunc (v *vbint) UnmarshalBinary(data []byte) error {\n\tif len(data) == 0 {\n\t\treturn unmarshalErr(v, \"\", \"missing data\")\n\t}\n\tvar multiplier uint = 1\n\tvar value uint\n\tfor _, encodedByte := range data {\n\t\tvalue += uint(encodedByte) & uint(127) * multiplier\n\t\tif multiplier > 128*128*128 {\n\t\t\treturn unmarshalErr(v, \"\", \"size exceeded\")\n\t\t}\n\t\tif encodedByte&128 == 0 {\n\t\t\t*v = vbint(value)\n\t\t\treturn nil\n\t\t}\n\t\tmultiplier = multiplier * 128\n\t}\n\treturn unmarshalErr(v, \"\", \"missing data\")\n}\n\n"}}},
+		{Name: "shift-loop-width-counts-one-group-less-from-2-21", Rule: "R15.6", Where: "(vbint).fill", Edits: []Edit{{"wiretypes.go", "func (v vbint) fill(data []byte, i int) int {\n\tx := v\n\tn := i\n\tfor {\n\t\tencodedByte := byte(x % 128)\n\t\tx = x / 128\n\t\tif x > 0 {\n\t\t\tencodedByte = encodedByte | 128\n\t\t}\n\t\tif i < len(data) {\n\t\t\tdata[i] = encodedByte\n\t\t}\n\t\ti++\n\t\tif x == 0 {\n\t\t\tbreak\n\t\t}\n\t}\n\treturn i - n\n}\n\nfunc (v vbint) width() int {\n\treturn v.fill(_LEN, 0)\n}\n\nfunc (v *vbint) ReadFrom(r io.Reader) (int64, error) {\n\tvar multiplier uint = 1\n\tvar value uint\n\tdata := make([]byte, 1)\n\tvar i int64\n\tfor {\n\t\tif _, err := io.ReadFull(r, data); err != nil {\n\t\t\treturn i, err\n\t\t}\n\t\ti++\n\t\tencodedByte := data[0]\n\t\tvalue += uint(encodedByte) & uint(127) * multiplier\n\t\tif multiplier > 128*128*128 {\n\t\t\treturn i, unmarshalErr(v, \"\", \"size exceeded\")\n\t\t}\n\t\tif encodedByte&128 == 0 {\n\t\t\tbreak\n\t\t}\n\t\tmultiplier = multiplier * 128\n\t}\n\t*v = vbint(value)\n\treturn i, nil\n}\n\n// UnmarshalBinary data, returns nil or *Malformed error\nfunc (v *vbint) UnmarshalBinary(data []byte) error {\n\tif len(data) == 0 {\n\t\treturn unmarshalErr(v, \"\", \"missing data\")\n\t}\n\tvar multiplier uint = 1\n\tvar value uint\n\tfor _, encodedByte := range data {\n\t\tvalue += uint(encodedByte) & uint(127) * multiplier\n\t\tif multiplier > 128*128*128 {\n\t\t\treturn unmarshalErr(v, \"\", \"size exceeded\")\n\t\t}\n\t\tif encodedByte&128 == 0 {\n\t\t\t*v = vbint(value)\n\t\t\treturn nil\n\t\t}\n\t\tmultiplier = multiplier * 128\n\t}\n\treturn unmarshalErr(v, \"\", \"missing data\")\n}\n\n", "func (v vbint) fill(data []byte, i int) int {\n\tn := i\n\tx := v\n\t// all but the last group have the continuation bit set\n\tfor ; x >= 128; x >>= 7 {\n\t\ti += putByte(data, i, byte(x&127)|128)\n\t}\n\ti += putByte(data, i, byte(x))\n\treturn i - n\n}\n\n// putByte sets data[i] if there is room for it and returns 1, ie. the\n// width of a byte.\nfunc putByte(data []byte, i int, b byte) int {\n\tif i < len(data) {\n\t\tdata[i] = b\n\t}\n\treturn 1\n}\n\n// width returns the number of 7-bit groups needed to encode v.\nfunc (v vbint) width() int {\n\tn := 1\n\tfor x := v; x >= 128 && n < 3; x >>= 7 {\n\t\tn++\n\t}\n\treturn n\n}\n\nfunc (v *vbint) ReadFrom(r io.Reader) (int64, error) {\n\tvar multiplier uint = 1\n\tvar value uint\n\tdata := make([]byte, 1)\n\tvar i int64\n\tfor {\n\t\tif _, err := io.ReadFull(r, data); err != nil {\n\t\t\treturn i, err\n\t\t}\n\t\ti++\n\t\tencodedByte := data[0]\n\t\tvalue += uint(encodedByte) & uint(127) * multiplier\n\t\tif multiplier > 128*128*128 {\n\t\t\treturn i, unmarshalErr(v, \"\", \"size exceeded\")\n\t\t}\n\t\tif encodedByte&128 == 0 {\n\t\t\tbreak\n\t\t}\n\t\tmultiplier = multiplier * 128\n\t}\n\t*v = vbint(value)\n\treturn i, nil\n}\n\n// UnmarshalBinary data, returns nil or *Malformed error\nfunc (v *vbint) UnmarshalBinary(data []byte) error {\n\tif len(data) == 0 {\n\t\treturn unmarshalErr(v, \"\", \"missing data\")\n\t}\n\tvar multiplier uint = 1\n\tvar value uint\n\tfor _, encodedByte := range data {\n\t\tvalue += uint(encodedByte) & uint(127) * multiplier\n\t\tif multiplier > 128*128*128 {\n\t\t\treturn unmarshalErr(v, \"\", \"size exceeded\")\n\t\t}\n\t\tif encodedByte&128 == 0 {\n\t\t\t*v = vbint(value)\n\t\t\treturn nil\n\t\t}\n\t\tmultiplier = multiplier * 128\n\t}\n\treturn unmarshalErr(v, \"\", \"missing data\")\n}\n\n"}}},
+		{Name: "state-machine-decoders", Silent: true, Edits: []Edit{{"wiretypes.go", "func (v vbint) fill(data []byte, i int) int {\n\tx := v\n\tn := i\n\tfor {\n\t\tencodedByte := byte(x % 128)\n\t\tx = x / 128\n\t\tif x > 0 {\n\t\t\tencodedByte = encodedByte | 128\n\t\t}\n\t\tif i < len(data) {\n\t\t\tdata[i] = encodedByte\n\t\t}\n\t\ti++\n\t\tif x == 0 {\n\t\t\tbreak\n\t\t}\n\t}\n\treturn i - n\n}\n\nfunc (v vbint) width() int {\n\treturn v.fill(_LEN, 0)\n}\n\nfunc (v *vbint) ReadFrom(r io.Reader) (int64, error) {\n\tvar multiplier uint = 1\n\tvar value uint\n\tdata := make([]byte, 1)\n\tvar i int64\n\tfor {\n\t\tif _, err := io.ReadFull(r, data); err != nil {\n\t\t\treturn i, err\n\t\t}\n\t\ti++\n\t\tencodedByte := data[0]\n\t\tvalue += uint(encodedByte) & uint(127) * multiplier\n\t\tif multiplier > 128*128*128 {\n\t\t\treturn i, unmarshalErr(v, \"\", \"size exceeded\")\n\t\t}\n\t\tif encodedByte&128 == 0 {\n\t\t\tbreak\n\t\t}\n\t\tmultiplier = multiplier * 128\n\t}\n\t*v = vbint(value)\n\treturn i, nil\n}\n\n// UnmarshalBinary data, returns nil or *Malformed error\nfunc (v *vbint) UnmarshalBinary(data []byte) error {\n\tif len(data) == 0 {\n\t\treturn unmarshalErr(v, \"\", \"missing data\")\n\t}\n\tvar multiplier uint = 1\n\tvar value uint\n\tfor _, encodedByte := range data {\n\t\tvalue += uint(encodedByte) & uint(127) * multiplier\n\t\tif multiplier > 128*128*128 {\n\t\t\treturn unmarshalErr(v, \"\", \"size exceeded\")\n\t\t}\n\t\tif encodedByte&128 == 0 {\n\t\t\t*v = vbint(value)\n\t\t\treturn nil\n\t\t}\n\t\tmultiplier = multiplier * 128\n\t}\n\treturn unmarshalErr(v, \"\", \"missing data\")\n}\n\n", "func (v vbint) fill(data []byte, i int) int {\n\tx := v\n\tn := i\n\tfor {\n\t\tencodedByte := byte(x % 128)\n\t\tx = x / 128\n\t\tif x > 0 {\n\t\t\tencodedByte = encodedByte | 128\n\t\t}\n\t\tif i < len(data) {\n\t\t\tdata[i] = encodedByte\n\t\t}\n\t\ti++\n\t\tif x == 0 {\n\t\t\tbreak\n\t\t}\n\t}\n\treturn i - n\n}\n\nfunc (v vbint) width() int {\n\treturn v.fill(_LEN, 0)\n}\n\nfunc (v *vbint) ReadFrom(r io.Reader) (int64, error) {\n\tdec := newVbintDecoder()\n\tdata := make([]byte, 1)\n\tvar n int64\n\tfor {\n\t\tif _, err := io.ReadFull(r, data); err != nil {\n\t\t\treturn n, err\n\t\t}\n\t\tn++\n\t\tlast, ok := dec.next(data[0])\n\t\tif !ok {\n\t\t\treturn n, unmarshalErr(v, \"\", \"size exceeded\")\n\t\t}\n\t\tif last {\n\t\t\t*v = vbint(dec.value)\n\t\t\treturn n, nil\n\t\t}\n\t}\n}\n\n// UnmarshalBinary data, returns nil or *Malformed error\nfunc (v *vbint) UnmarshalBinary(data []byte) error {\n\tdec := newVbintDecoder()\n\tfor _, encodedByte := range data {\n\t\tlast, ok := dec.next(encodedByte)\n\t\tif !ok {\n\t\t\treturn unmarshalErr(v, \"\", \"size exceeded\")\n\t\t}\n\t\tif last {\n\t\t\t*v = vbint(dec.value)\n\t\t\treturn nil\n\t\t}\n\t}\n\t// empty or ends with a continuation byte\n\treturn unmarshalErr(v, \"\", \"missing data\")\n}\n\n// vbintDecoder accumulates the bytes of a variable byte integer, least\n// significant group first.\ntype vbintDecoder struct {\n\tvalue      uint\n\tmultiplier uint\n}\n\nfunc newVbintDecoder() vbintDecoder {\n\treturn vbintDecoder{multiplier: 1}\n}\n\n// next consumes one encoded byte. last is true when the byte carries\n// no continuation bit, ie. value is complete. ok is false if the\n// byte is the fifth one, the encoding is limited to four bytes.\nfunc (d *vbintDecoder) next(encodedByte byte) (last, ok bool) {\n\tif d.multiplier > 128*128*128 {\n\t\treturn false, false\n\t}\n\td.value += (uint(encodedByte) & 127) * d.multiplier\n\td.multiplier *= 128\n\treturn encodedByte&128 == 0, true\n}\n\n"}}},
+		{Name: "state-machine-guard-one-step-late", Rule: "R15.6", Where: "(*vbint).UnmarshalBinary", Edits: []Edit{{"wiretypes.go", "func (v vbint) fill(data []byte, i int) int {\n\tx := v\n\tn := i\n\tfor {\n\t\tencodedByte := byte(x % 128)\n\t\tx = x / 128\n\t\tif x > 0 {\n\t\t\tencodedByte = encodedByte | 128\n\t\t}\n\t\tif i < len(data) {\n\t\t\tdata[i] = encodedByte\n\t\t}\n\t\ti++\n\t\tif x == 0 {\n\t\t\tbreak\n\t\t}\n\t}\n\treturn i - n\n}\n\nfunc (v vbint) width() int {\n\treturn v.fill(_LEN, 0)\n}\n\nfunc (v *vbint) ReadFrom(r io.Reader) (int64, error) {\n\tvar multiplier uint = 1\n\tvar value uint\n\tdata := make([]byte, 1)\n\tvar i int64\n\tfor {\n\t\tif _, err := io.ReadFull(r, data); err != nil {\n\t\t\treturn i, err\n\t\t}\n\t\ti++\n\t\tencodedByte := data[0]\n\t\tvalue += uint(encodedByte) & uint(127) * multiplier\n\t\tif multiplier > 128*128*128 {\n\t\t\treturn i, unmarshalErr(v, \"\", \"size exceeded\")\n\t\t}\n\t\tif encodedByte&128 == 0 {\n\t\t\tbreak\n\t\t}\n\t\tmultiplier = multiplier * 128\n\t}\n\t*v = vbint(value)\n\treturn i, nil\n}\n\n// UnmarshalBinary data, returns nil or *Malformed error\nfunc (v *vbint) UnmarshalBinary(data []byte) error {\n\tif len(data) == 0 {\n\t\treturn unmarshalErr(v, \"\", \"missing data\")\n\t}\n\tvar multiplier uint = 1\n\tvar value uint\n\tfor _, encodedByte := range data {\n\t\tvalue += uint(encodedByte) & uint(127) * multiplier\n\t\tif multiplier > 128*128*128 {\n\t\t\treturn unmarshalErr(v, \"\", \"size exceeded\")\n\t\t}\n\t\tif encodedByte&128 == 0 {\n\t\t\t*v = vbint(value)\n\t\t\treturn nil\n\t\t}\n\t\tmultiplier = multiplier * 128\n\t}\n\treturn unmarshalErr(v, \"\", \"missing data\")\n}\n\n", "func (v vbint) fill(data []byte, i int) int {\n\tx := v\n\tn := i\n\tfor {\n\t\tencodedByte := byte(x % 128)\n\t\tx = x / 128\n\t\tif x > 0 {\n\t\t\tencodedByte = encodedByte | 128\n\t\t}\n\t\tif i < len(data) {\n\t\t\tdata[i] = encodedByte\n\t\t}\n\t\ti++\n\t\tif x == 0 {\n\t\t\tbreak\n\t\t}\n\t}\n\treturn i - n\n}\n\nfunc (v vbint) width() int {\n\treturn v.fill(_LEN, 0)\n}\n\nfunc (v *vbint) ReadFrom(r io.Reader) (int64, error) {\n\tdec := newVbintDecoder()\n\tdata := make([]byte, 1)\n\tvar n int64\n\tfor {\n\t\tif _, err := io.ReadFull(r, data); err != nil {\n\t\t\treturn n, err\n\t\t}\n\t\tn++\n\t\tlast, ok := dec.next(data[0])\n\t\tif !ok {\n\t\t\treturn n, unmarshalErr(v, \"\", \"size exceeded\")\n\t\t}\n\t\tif last {\n\t\t\t*v = vbint(dec.value)\n\t\t\treturn n, nil\n\t\t}\n\t}\n}\n\n// UnmarshalBinary data, returns nil or *Malformed error\nfunc (v *vbint) UnmarshalBinary(data []byte) error {\n\tdec := newVbintDecoder()\n\tfor _, encodedByte := range data {\n\t\tlast, ok := dec.next(encodedByte)\n\t\tif !ok {\n\t\t\treturn unmarshalErr(v, \"\", \"size exceeded\")\n\t\t}\n\t\tif last {\n\t\t\t*v = vbint(dec.value)\n\t\t\treturn nil\n\t\t}\n\t}\n\t// empty or ends with a continuation byte\n\treturn unmarshalErr(v, \"\", \"missing data\")\n}\n\n// vbintDecoder accumulates the bytes of a variable byte integer, least\n// significant group first.\ntype vbintDecoder struct {\n\tvalue      uint\n\tmultiplier uint\n}\n\nfunc newVbintDecoder() vbintDecoder {\n\treturn vbintDecoder{multiplier: 1}\n}\n\n// next consumes one encoded byte. last is true when the byte carries\n// no continuation bit, ie. value is complete. ok is false if the\n// byte is the fifth one, the encoding is limited to four bytes.\nfunc (d *vbintDecoder) next(encodedByte byte) (last, ok bool) {\n\tif d.multiplier > 128*128*128*128 {\n\t\treturn false, false\n\t}\n\td.value += (uint(encodedByte) & 127) * d.multiplier\n\td.multiplier *= 128\n\treturn encodedByte&128 == 0, true\n}\n\n"}}},
+		{Name: "state-machine-mask-126", Rule: "R15.6", Where: "(*vbint).ReadFrom", Edits: []Edit{{"wiretypes.go", "func (v vbint) fill(data []byte, i int) int {\n\tx := v\n\tn := i\n\tfor {\n\t\tencodedByte := byte(x % 128)\n\t\tx = x / 128\n\t\tif x > 0 {\n\t\t\tencodedByte = encodedByte | 128\n\t\t}\n\t\tif i < len(data) {\n\t\t\tdata[i] = encodedByte\n\t\t}\n\t\ti++\n\t\tif x == 0 {\n\t\t\tbreak\n\t\t}\n\t}\n\treturn i - n\n}\n\nfunc (v vbint) width() int {\n\treturn v.fill(_LEN, 0)\n}\n\nfunc (v *vbint) ReadFrom(r io.Reader) (int64, error) {\n\tvar multiplier uint = 1\n\tvar value uint\n\tdata := make([]byte, 1)\n\tvar i int64\n\tfor {\n\t\tif _, err := io.ReadFull(r, data); err != nil {\n\t\t\treturn i, err\n\t\t}\n\t\ti++\n\t\tencodedByte := data[0]\n\t\tvalue += uint(encodedByte) & uint(127) * multiplier\n\t\tif multiplier > 128*128*128 {\n\t\t\treturn i, unmarshalErr(v, \"\", \"size exceeded\")\n\t\t}\n\t\tif encodedByte&128 == 0 {\n\t\t\tbreak\n\t\t}\n\t\tmultiplier = multiplier * 128\n\t}\n\t*v = vbint(value)\n\treturn i, nil\n}\n\n// UnmarshalBinary data, returns nil or *Malformed error\nfunc (v *vbint) UnmarshalBinary(data []byte) error {\n\tif len(data) == 0 {\n\t\treturn unmarshalErr(v, \"\", \"missing data\")\n\t}\n\tvar multiplier uint = 1\n\tvar value uint\n\tfor _, encodedByte := range data {\n\t\tvalue += uint(encodedByte) & uint(127) * multiplier\n\t\tif multiplier > 128*128*128 {\n\t\t\treturn unmarshalErr(v, \"\", \"size exceeded\")\n\t\t}\n\t\tif encodedByte&128 == 0 {\n\t\t\t*v = vbint(value)\n\t\t\treturn nil\n\t\t}\n\t\tmultiplier = multiplier * 128\n\t}\n\treturn unmarshalErr(v, \"\", \"missing data\")\n}\n\n", "func (v vbint) fill(data []byte, i int) int {\n\tx := v\n\tn := i\n\tfor {\n\t\tencodedByte := byte(x % 128)\n\t\tx = x / 128\n\t\tif x > 0 {\n\t\t\tencodedByte = encodedByte | 128\n\t\t}\n\t\tif i < len(data) {\n\t\t\tdata[i] = encodedByte\n\t\t}\n\t\ti++\n\t\tif x == 0 {\n\t\t\tbreak\n\t\t}\n\t}\n\treturn i - n\n}\n\nfunc (v vbint) width() int {\n\treturn v.fill(_LEN, 0)\n}\n\nfunc (v *vbint) ReadFrom(r io.Reader) (int64, error) {\n\tdec := newVbintDecoder()\n\tdata := make([]byte, 1)\n\tvar n int64\n\tfor {\n\t\tif _, err := io.ReadFull(r, data); err != nil {\n\t\t\treturn n, err\n\t\t}\n\t\tn++\n\t\tlast, ok := dec.next(data[0])\n\t\tif !ok {\n\t\t\treturn n, unmarshalErr(v, \"\", \"size exceeded\")\n\t\t}\n\t\tif last {\n\t\t\t*v = vbint(dec.value)\n\t\t\treturn n, nil\n\t\t}\n\t}\n}\n\n// UnmarshalBinary data, returns nil or *Malformed error\nfunc (v *vbint) UnmarshalBinary(data []byte) error {\n\tdec := newVbintDecoder()\n\tfor _, encodedByte := range data {\n\t\tlast, ok := dec.next(encodedByte)\n\t\tif !ok {\n\t\t\treturn unmarshalErr(v, \"\", \"size exceeded\")\n\t\t}\n\t\tif last {\n\t\t\t*v = vbint(dec.value)\n\t\t\treturn nil\n\t\t}\n\t}\n\t// empty or ends with a continuation byte\n\treturn unmarshalErr(v, \"\", \"missing data\")\n}\n\n// vbintDecoder accumulates the bytes of a variable byte integer, least\n// significant group first.\ntype vbintDecoder struct {\n\tvalue      uint\n\tmultiplier uint\n}\n\nfunc newVbintDecoder() vbintDecoder {\n\treturn vbintDecoder{multiplier: 1}\n}\n\n// next consumes one encoded byte. last is true when the byte carries\n// no continuation bit, ie. value is complete. ok is false if the\n// byte is the fifth one, the encoding is limited to four bytes.\nfunc (d *vbintDecoder) next(encodedByte byte) (last, ok bool) {\n\tif d.multiplier > 128*128*128 {\n\t\treturn false, false\n\t}\n\td.value += (uint(encodedByte) & 126) * d.multiplier\n\td.multiplier *= 128\n\treturn encodedByte&128 == 0, true\n}\n\n"}}},
+		{Name: "state-machine-accepts-input-that-ends-on-a-continuation-byte", Rule: "R15.6", Where: "(*vbint).UnmarshalBinary", Edits: []Edit{{"wiretypes.go", "func (v vbint) fill(data []byte, i int) int {\n\tx := v\n\tn := i\n\tfor {\n\t\tencodedByte := byte(x % 128)\n\t\tx = x / 128\n\t\tif x > 0 {\n\t\t\tencodedByte = encodedByte | 128\n\t\t}\n\t\tif i < len(data) {\n\t\t\tdata[i] = encodedByte\n\t\t}\n\t\ti++\n\t\tif x == 0 {\n\t\t\tbreak\n\t\t}\n\t}\n\treturn i - n\n}\n\nfunc (v vbint) width() int {\n\treturn v.fill(_LEN, 0)\n}\n\nfunc (v *vbint) ReadFrom(r io.Reader) (int64, error) {\n\tvar multiplier uint = 1\n\tvar value uint\n\tdata := make([]byte, 1)\n\tvar i int64\n\tfor {\n\t\tif _, err := io.ReadFull(r, data); err != nil {\n\t\t\treturn i, err\n\t\t}\n\t\ti++\n\t\tencodedByte := data[0]\n\t\tvalue += uint(encodedByte) & uint(127) * multiplier\n\t\tif multiplier > 128*128*128 {\n\t\t\treturn i, unmarshalErr(v, \"\", \"size exceeded\")\n\t\t}\n\t\tif encodedByte&128 == 0 {\n\t\t\tbreak\n\t\t}\n\t\tmultiplier = multiplier * 128\n\t}\n\t*v = vbint(value)\n\treturn i, nil\n}\n\n// UnmarshalBinary data, returns nil or *Malformed error\nfunc (v *vbint) UnmarshalBinary(data []byte) error {\n\tif len(data) == 0 {\n\t\treturn unmarshalErr(v, \"\", \"missing data\")\n\t}\n\tvar multiplier uint = 1\n\tvar value uint\n\tfor _, encodedByte := range data {\n\t\tvalue += uint(encodedByte) & uint(127) * multiplier\n\t\tif multiplier > 128*128*128 {\n\t\t\treturn unmarshalErr(v, \"\", \"size exceeded\")\n\t\t}\n\t\tif encodedByte&128 == 0 {\n\t\t\t*v = vbint(value)\n\t\t\treturn nil\n\t\t}\n\t\tmultiplier = multiplier * 128\n\t}\n\treturn unmarshalErr(v, \"\", \"missing data\")\n}\n\n", "func (v vbint) fill(data []byte, i int) int {\n\tx := v\n\tn := i\n\tfor {\n\t\tencodedByte := byte(x % 128)\n\t\tx = x / 128\n\t\tif x > 0 {\n\t\t\tencodedByte = encodedByte | 128\n\t\t}\n\t\tif i < len(data) {\n\t\t\tdata[i] = encodedByte\n\t\t}\n\t\ti++\n\t\tif x == 0 {\n\t\t\tbreak\n\t\t}\n\t}\n\treturn i - n\n}\n\nfunc (v vbint) width() int {\n\treturn v.fill(_LEN, 0)\n}\n\nfunc (v *vbint) ReadFrom(r io.Reader) (int64, error) {\n\tdec := newVbintDecoder()\n\tdata := make([]byte, 1)\n\tvar n int64\n\tfor {\n\t\tif _, err := io.ReadFull(r, data); err != nil {\n\t\t\treturn n, err\n\t\t}\n\t\tn++\n\t\tlast, ok := dec.next(data[0])\n\t\tif !ok {\n\t\t\treturn n, unmarshalErr(v, \"\", \"size exceeded\")\n\t\t}\n\t\tif last {\n\t\t\t*v = vbint(dec.value)\n\t\t\treturn n, nil\n\t\t}\n\t}\n}\n\n// UnmarshalBinary data, returns nil or *Malformed error\nfunc (v *vbint) UnmarshalBinary(data []byte) error {\n\tdec := newVbintDecoder()\n\tfor _, encodedByte := range data {\n\t\tlast, ok := dec.next(encodedByte)\n\t\tif !ok {\n\t\t\treturn unmarshalErr(v, \"\", \"size exceeded\")\n\t\t}\n\t\tif last {\n\t\t\t*v = vbint(dec.value)\n\t\t\treturn nil\n\t\t}\n\t}\n\tif len(data) == 0 {\n\t\treturn unmarshalErr(v, \"\", \"missing data\")\n\t}\n\t*v = vbint(dec.value)\n\treturn nil\n}\n\n// vbintDecoder accumulates the bytes of a variable byte integer, least\n// significant group first.\ntype vbintDecoder struct {\n\tvalue      uint\n\tmultiplier uint\n}\n\nfunc newVbintDecoder() vbintDecoder {\n\treturn vbintDecoder{multiplier: 1}\n}\n\n// next consumes one encoded byte. last is true when the byte carries\n// no continuation bit, ie. value is complete. ok is false if the\n// byte is the fifth one, the encoding is limited to four bytes.\nfunc (d *vbintDecoder) next(encodedByte byte) (last, ok bool) {\n\tif d.multiplier > 128*128*128 {\n\t\treturn false, false\n\t}\n\td.value += (uint(encodedByte) & 127) * d.multiplier\n\td.multiplier *= 128\n\treturn encodedByte&128 == 0, true\n}\n\n"}}},
+		{Name: "hand-unrolled-length-writer-next-to-the-codec", Rule: "R15.4", Where: "fillLength", Edits: []Edit{{"publish.go", "\ti += remainingLen.fill(b, i) // remaining length\n", "\ti += fillLength(b, i, int(remainingLen))\n"}, {"publish.go", "func (p *Publish) variableHeader(b []byte, i int) int {", "// fillLength writes n as a variable byte integer.\nfunc fillLength(b []byte, i int, n int) int {\n\tswitch {\n\tcase n < 128:\n\t\tif i < len(b) {\n\t\t\tb[i] = byte(n)\n\t\t}\n\t\treturn 1\n\tcase n < 16384:\n\t\tif i+1 < len(b) {\n\t\t\tb[i], b[i+1] = byte(n&127|128), byte(n>>7)\n\t\t}\n\t\treturn 2\n\tcase n < 2097152:\n\t\tif i+2 < len(b) {\n\t\t\tb[i], b[i+1], b[i+2] = byte(n&127|128), byte(n>>7&127|128), byte(n>>14)\n\t\t}\n\t\treturn 3\n\t}\n\tif i+3 < len(b) {\n\t\tb[i], b[i+1], b[i+2], b[i+3] = byte(n&127|128), byte(n>>7&127|128), byte(n>>14&127|128), byte(n>>24)\n\t}\n\treturn 4\n}\n\nfunc (p *Publish) variableHeader(b []byte, i int) int {"}}},
 		{Name: "constants-rewritten", Silent: true, Edits: []Edit{{"wiretypes.go", "\tfor _, encodedByte := range data {\n\t\tvalue += uint(encodedByte) & uint(127) * multiplier", "\tfor _, encodedByte := range data {\n\t\tvalue += uint(encodedByte) & uint(0x7f) * multiplier"}, {"wiretypes.go", "\t\tmultiplier = multiplier * 128\n\t}\n\treturn unmarshalErr(v, \"\", \"missing data\")", "\t\tmultiplier = multiplier << 7\n\t}\n\treturn unmarshalErr(v, \"\", \"missing data\")"}}},
 	}})
 }
@@ -256,8 +268,23 @@ func checkC15(p *Prog, c *Check) {
 			break
 		}
 	}
+	// R15.6: the codec's functions evaluated against the specification on boundary values and byte sequences
+	c.Rule("R15.4", "every function of the fill family that stores into the output buffer itself is the encoder of a wire type: no second length/integer writer exists next to the variable byte integer's")
+	c.Rule("R15.6", "encoder, width(), in-memory and streaming decoder of the variable byte integer type, evaluated in SSA form on boundary values (all up to 300, around 2^7/2^14/2^21/2^28, around every constant in the code, a spread over the range) and on byte sequences (their encodings with trailing bytes, all sequences of ≤ 4 bytes over {00,01,7f,80,81,ff}, five-byte continuations), give exactly what MQTT v5.0 §1.5.5 defines: bytes, widths, values, bytes consumed, rejections")
+	evalOK := map[*ssa.Function]bool{}
+	for _, name := range p.Pkg.Scope().Names() {
+		tnm, ok := p.Pkg.Scope().Lookup(name).(*types.TypeName)
+		if !ok || tnm.IsAlias() || p.wireKindOf(tnm.Type()) != "vbi" {
+			continue
+		}
+		for fn, ok := range checkVBIByEvaluation(p, c, name) {
+			evalOK[fn] = ok
+		}
+	}
+	var evalDecs []*ssa.Function
 	// every decoding method of a variable-byte-integer wire type must be among them: one that is not of the
-	// recognised shape (accumulator starting at zero inside the function, stored on the successful exit) is named
+	// recognised shape (accumulator starting at zero inside the function, stored on the successful exit) is judged
+	// by the evaluation alone
 	for _, name := range p.Pkg.Scope().Names() {
 		tnm, ok := p.Pkg.Scope().Lookup(name).(*types.TypeName)
 		if !ok || tnm.IsAlias() || p.wireKindOf(tnm.Type()) != "vbi" {
@@ -277,6 +304,11 @@ func checkC15(p *Prog, c *Check) {
 			if found {
 				continue
 			}
+			if evalOK[fn] {
+				evalDecs = append(evalDecs, fn)
+				c.OK("R15.1", qname(fn), p.Pos(fn.Pos()), "decoder of the variable byte integer type "+name+", not of the multiplier-accumulator shape: decided by evaluation (R15.6)")
+				continue
+			}
 			why := "no accumulator that starts at zero inside the function, grows by (byte & mask) × multiplier per byte and is stored into the receiver on the successful exit"
 			for _, b := range fn.Blocks {
 				for _, ins := range b.Instrs {
@@ -294,8 +326,8 @@ func checkC15(p *Prog, c *Check) {
 			c.Bad("R15.1", qname(fn), p.Pos(fn.Pos()), "decoder of the variable byte integer type "+name+": "+why)
 		}
 	}
-	c.Measured["vbi_decoders"] = len(decs)
-	c.Floor("variable-byte-integer decoders", len(decs), 2, "streaming and in-memory")
+	c.Measured["vbi_decoders"] = len(decs) + len(evalDecs)
+	c.Floor("variable-byte-integer decoders", len(decs)+len(evalDecs), 2, "streaming and in-memory")
 	const R, M, CONT = 128, 127, 128
 	const B = 128 * 128 * 128
 	for _, d := range decs {
@@ -336,9 +368,28 @@ func checkC15(p *Prog, c *Check) {
 			c.Bad("R15.2", "decoders", "-", fmt.Sprintf("%s: mask %d radix %d bound %d cont %d; %s: mask %d radix %d bound %d cont %d", qname(decs[0].fn), a.M, a.R, a.B, decs[0].cm, qname(decs[1].fn), b.M, b.R, b.B, decs[1].cm))
 		}
 	}
+	if len(decs) < 2 && len(decs)+len(evalDecs) >= 2 {
+		c.OK("R15.2", "decoders", "-", "both decoders agree with the specification, hence with each other, on every evaluated byte sequence (R15.6)")
+	}
+	for _, fn := range evalDecs {
+		if fn.Name() == "ReadFrom" {
+			c.OK("R6.3", qname(fn)+"#lengthloop", p.Pos(fn.Pos()), "by evaluation (R15.6): the streaming decoder takes exactly the bytes of the integer from the stream and reports that count")
+		}
+	}
 	// encoder
 	enc := p.findVBIEncoder()
+	var evalEnc *ssa.Function
 	if enc == nil {
+		for fn, ok := range evalOK {
+			if ok && fn != nil && fn.Name() == "fill" {
+				evalEnc = fn
+			}
+		}
+	}
+	if enc == nil && evalEnc != nil {
+		c.OK("R15.1", "encoder "+qname(evalEnc), p.Pos(evalEnc.Pos()), "not of the mod/div shape: decided by evaluation (R15.6)")
+		c.OK("R15.3", "encoder "+qname(evalEnc), p.Pos(evalEnc.Pos()), "continuation bit on all but the last byte on every evaluated value (R15.6)")
+	} else if enc == nil {
 		c.Unk("R15.1", "encoder", "-", "no encoder with a divisive loop found")
 	} else {
 		c.Fn(qname(enc.fn))
@@ -357,6 +408,41 @@ func checkC15(p *Prog, c *Check) {
 		} else if enc.why == "" {
 			c.Bad("R15.3", cons, pos, enc.contWhy)
 		}
+	}
+	// R15.4: on the encode side the bytes of a frame are written by the wire types' own encoders only — a function
+	// of the fill family that stores into its buffer without being a method of a wire type would be a second
+	// encoder next to the variable byte integer's (a hand-unrolled length writer), outside everything above
+	{
+		nw := 0
+		for _, fn := range p.AllFuncs() {
+			if !isFillFamily(fn) || fn.Synthetic != "" || !p.inMQ(fn) || len(fn.Blocks) == 0 {
+				continue
+			}
+			buf, _, _, _ := emissionsOf(p, fn)
+			if buf == nil || !writesBufferDirectly(fn, buf) {
+				continue
+			}
+			nw++
+			kind := ""
+			if fn.Signature.Recv() != nil {
+				kind = p.wireKindOf(fn.Signature.Recv().Type())
+				if kind == "" {
+					if pt, ok := fn.Signature.Recv().Type().Underlying().(*types.Pointer); ok {
+						kind = p.wireKindOf(pt.Elem())
+					}
+				}
+			}
+			if kind == "" && calledOnlyFromWireEncoders(p, fn, 0) {
+				continue // a helper of a wire type's encoder (`putByte(data, i, b)`): judged with that encoder
+			}
+			if kind == "" {
+				c.Unk("R15.4", qname(fn), p.Pos(fn.Pos()), "a function that is not the encoder of a wire type writes bytes of the frame itself: lengths and integers written here bypass the variable byte integer's encoder (R15.1, R15.3, R15.6 say nothing about them)")
+			}
+		}
+		if nw > 0 {
+			c.OK("R15.4", "encoders writing the buffer", "-", fmt.Sprintf("%d function(s) store into the output buffer; every one not reported above is a wire type's own encoder", nw))
+		}
+		c.Floor("encoders that write the buffer themselves", nw, 5, "byte, two-byte, four-byte, variable byte integer, length-prefixed data at least")
 	}
 	// R6.3 for the streaming decoder
 	for _, d := range decs {
@@ -386,6 +472,13 @@ func checkC15(p *Prog, c *Check) {
 	}
 	// R15.5
 	cur := p.Cursor()
+	if cur.G != nil && cur.Width != nil && enc == nil && evalEnc != nil {
+		if nt := namedOf(evalEnc.Signature.Recv().Type()); nt != nil && evalOK[p.Method(nt.Obj().Name(), "width")] {
+			c.OK("R15.5", "advance", posOf(p, cur.Width), "the sequential reader advances by width(), which is the length of the encoding on every evaluated value (R15.6)")
+		} else {
+			c.Unk("R15.5", "advance", posOf(p, cur.Width), "width() of the variable byte integer was not evaluated")
+		}
+	}
 	if cur.G != nil && cur.Width != nil && enc != nil {
 		// width() of the vbint type is the encoder's dry run
 		okW := false
@@ -405,6 +498,38 @@ func checkC15(p *Prog, c *Check) {
 		}
 	}
 	_ = types.Typ
+}
+
+// calledOnlyFromWireEncoders: every call site of fn lies in a method of a wire type (or in a helper for which
+// the same holds).
+func calledOnlyFromWireEncoders(p *Prog, fn *ssa.Function, depth int) bool {
+	if depth > 3 {
+		return false
+	}
+	n := 0
+	for _, cf := range p.AllFuncs() {
+		for _, ci := range p.Calls(cf) {
+			for _, cal := range ci.Callees {
+				if cal != fn {
+					continue
+				}
+				n++
+				kind := ""
+				if cf.Signature.Recv() != nil {
+					kind = p.wireKindOf(cf.Signature.Recv().Type())
+					if kind == "" {
+						if pt, ok := cf.Signature.Recv().Type().Underlying().(*types.Pointer); ok {
+							kind = p.wireKindOf(pt.Elem())
+						}
+					}
+				}
+				if kind == "" && !(cf != fn && isFillFamily(cf) && calledOnlyFromWireEncoders(p, cf, depth+1)) {
+					return false
+				}
+			}
+		}
+	}
+	return n > 0
 }
 
 // dryRunCallValue: v is F(x, <nil slice>, 0) for a fill-family F with a value receiver.
